@@ -19,13 +19,22 @@ vars == <<l, nt>>
 Trace == ndJsonDeserialize(IOEnv.OBS_FILE)
 Has(r, f) == f \in DOMAIN r
 V(c, s) == [class |-> c, sig |-> s]
+\* TLC's "=" is partial: comparing a string with a record or a boolean is an evaluation error, and
+\* the "Val" field of literals is polymorphic (string, boolean, record).  Projected ASTs are
+\* therefore compared structurally, kinds first (total).
+KindOfV(x) == LET c == SubSeq(ToString(x), 1, 1) IN IF c = "[" THEN "rec" ELSE IF c = "<" THEN "seq" ELSE "atom"
+RECURSIVE SameAst(_, _)
+SameAst(a, b) == LET ka == KindOfV(a) kb == KindOfV(b) IN
+  IF ka # kb THEN FALSE
+  ELSE IF ka = "atom" THEN ToString(a) = ToString(b)
+  ELSE DOMAIN a = DOMAIN b /\ \A f \in DOMAIN a : SameAst(a[f], b[f])
 
 QueryVerdicts(r) ==
   LET o == r.obs IN
   IF Has(o, "panic") \/ Has(o, "harness_panic") THEN {V("panic", "query")}
   ELSE IF r.bad THEN (IF Has(o, "err") THEN {} ELSE {V("missing-separator-accepted", "")})
   ELSE IF Has(o, "err") THEN (IF r.cm /\ Has(o, "err_regex") THEN {V("Dev_CommentBeforeRegexProbe", "")} ELSE {V("query-rejected", "")})
-  ELSE IF o.stmts # r.wants THEN {V("query-wrong-statements", "")}
+  ELSE IF ~SameAst(o.stmts, r.wants) THEN {V("query-wrong-statements", "")}
   ELSE {}
 
 SpellVerdicts(r) ==
@@ -36,7 +45,7 @@ SpellVerdicts(r) ==
        (IF d.comment /\ (Has(o, "err_regex") \/ d.re) THEN {V("Dev_CommentBeforeRegexProbe", "")}
         ELSE IF d.comment /\ d.emptyargs THEN {V("Dev_CommentInEmptyArgumentList", "")}
         ELSE {V(IF d.comment THEN "comment-changes-meaning" ELSE "whitespace-changes-meaning", r.kind)})
-  ELSE IF o.ast # r.want THEN {V(IF d.comment THEN "comment-changes-meaning" ELSE "whitespace-changes-meaning", r.kind)}
+  ELSE IF ~SameAst(o.ast, r.want) THEN {V(IF d.comment THEN "comment-changes-meaning" ELSE "whitespace-changes-meaning", r.kind)}
   ELSE {}
 
 Verdicts(r) == IF Has(r, "wants") THEN QueryVerdicts(r) ELSE SpellVerdicts(r)
